@@ -83,8 +83,7 @@ class Monitor:
 
         self.ds, self.torch, self.opt, self.cfg = ds, torch, opt, cfg
         self.h = resolve_groups(cfg, groups)
-        self.soap = cfg["precond"]["kind"] == "soap"
-        self.solver = cfg["precond"]["solver"]
+        self._set_group(0)
         self.check_roots, self.check_basis, self.check_reference = check_roots, check_basis, check_reference
         self.c = counters if counters is not None else {}
         for k in ("steps", "block_steps", "absent_block_steps", "refreshes", "root_checks", "root_checks_weak", "basis_checks", "basis_qr_matched", "basis_qr_nonvacuous", "basis_qr_backward", "rot_adam_checks", "warmup_block_steps", "precond_block_steps", "all_absent_group_steps", "mask_changes"):
@@ -109,12 +108,20 @@ class Monitor:
                 b.view = v
                 b.shape, b.stride, b.off = tuple(v.shape), tuple(v.stride()), v.storage_offset() - bi.param.storage_offset()
                 b.order = v.dim()
-                ign = cfg["precond"]["ignored_dims"]
+                ign = self.h[gi]["precond"]["ignored_dims"]
                 b.selector = tuple(d not in ign for d in range(b.order))
-                b.root = select_root(self.h[gi], b.order, self.soap)
+                b.root = select_root(self.h[gi], b.order, self.h[gi]["precond"]["kind"] == "soap")
                 self.blocks.append(b)
         self._prev_mask = None
         self.pre_snap = None
+
+    def _set_group(self, gi):
+        """preconditioner kind / solver / factor dtype are per param group (a group may override preconditioner_config,
+        grafting_config, preconditioner_dtype, inv_root_override, blocking)"""
+        h = self.h[gi]
+        self.soap = h["precond"]["kind"] == "soap"
+        self.solver = h["precond"]["solver"]
+        self.fdtype_name = h["preconditioner_dtype"]
 
     # ---------------------------------------------------------------------------------------------- state access
     def _state(self, b):
@@ -215,7 +222,8 @@ class Monitor:
             wd, lr, mu = gs["weight_decay"], gs["lr"], gs["momentum"]
             damp = h["dampening"]
             decoupled, bias, nesterov = h["use_decoupled_weight_decay"], h["use_bias_correction"], h["use_nesterov"]
-            graft = self.cfg["grafting"]
+            graft = h["grafting"]
+            self._set_group(gi)
             refresh = active and refresh_due(t, start, freq)
             bc2 = 1.0 - beta2**t if (bias and beta2 < 1.0) else 1.0
             for i in idx:
@@ -238,7 +246,7 @@ class Monitor:
                     continue
                 W, G = s["W"], s["G"]
                 up = u_eff(getattr(torch, pd))
-                fdtype = getattr(torch, self.cfg["preconditioner_dtype"])
+                fdtype = getattr(torch, self.fdtype_name)
                 old = {k: v.to(D) for k, v in s["raw"].items()}
                 # 1 coupled decay
                 if wd != 0.0 and not decoupled:
@@ -418,7 +426,7 @@ class Monitor:
         if not bool(torch.isfinite(X).all()):
             raise self._viol(f"stored inverse root {j} is not finite", b, t, kind="nonfinite_root")
         Xs, ev = matref.inverse_root_oracle(L / bc2, eps, r)
-        ufac = U(getattr(torch, self.cfg["preconditioner_dtype"]))
+        ufac = U(getattr(torch, self.fdtype_name))
         ust = U(getattr(torch, self.cfg["param_dtype"]))
         tol_solver = 0.0
         if self.solver["type"] in ("newton", "ho"):
@@ -455,7 +463,7 @@ class Monitor:
         if not bool(torch.isfinite(Q).all()):
             raise self._viol(f"stored eigenbasis {j} is not finite", b, t, kind="nonfinite_basis")
         ust = U(getattr(torch, self.cfg["param_dtype"]))
-        ufac = U(getattr(torch, self.cfg["preconditioner_dtype"]))
+        ufac = U(getattr(torch, self.fdtype_name))
         u = max(ust, ufac)
         C = 64.0
         ro = float((Q.T @ Q - torch.eye(n, dtype=D)).norm()) / (C * n * u)
